@@ -1,7 +1,7 @@
 //! C01 (and the C15 form inventory for it): + - * sqr cubic pow on UBig / IBig in every call form.
-use crate::common::*;
-use crate::forms::*;
-use crate::{forms_assign, forms_big_prim, forms_binop, forms_prim_big};
+use dashu_verif_harness::common::*;
+use dashu_verif_harness::forms::*;
+use dashu_verif_harness::{forms_assign, forms_big_prim, forms_binop, forms_prim_big};
 use dashu_int::{IBig, UBig};
 use serde_json::{json, Value};
 
@@ -162,7 +162,8 @@ fn type_pair(rng: &mut Rng) -> (&'static str, &'static str) {
     *rng.pick(&[("U", "U"), ("I", "I"), ("I", "I"), ("U", "I"), ("I", "U")])
 }
 
-pub fn main(args: &Args) {
+fn main() {
+    let args = &start();
     let mut log = Log::create(&args.out);
     let mut rng = Rng::new(args.seed);
     // 1. cases generated by TLC (spec -> implementation)
